@@ -177,10 +177,10 @@ Section WithCpf.
     Forall (fun e => e_ext e = []) (filter (fun e => match cpf e with Some true => true | _ => false end) b).
 
   Lemma vstore_logs_ok fail v s sh b :
-    vinv v sh -> same_shape s sh ->
+    vinv v sh -> aligned s sh ->
     o_res (vstore_logs cpf fail v s b) = SOk -> b <> [] ->
     let o := vstore_logs cpf fail v s b in
-    exists sh', store_logs sh (o_batch o) = Some sh' /\ same_shape (o_store o) sh' /\
+    exists sh', store_logs sh (o_batch o) = Some sh' /\ aligned (o_store o) sh' /\
                 vinv (o_v o) sh' /\
                 Forall (Rv (s_first sh') (s_logs sh')) (o_reports o) /\
                 (leader_batch b -> Forall (Rleader (s_first sh') (s_logs sh')) (o_reports o)).
@@ -192,7 +192,7 @@ Section WithCpf.
     destruct fail; [discriminate Hres|].
     destruct (store_logs s b') as [s'|] eqn:Es; [|discriminate Hres].
     cbn [o_batch o_store o_v o_reports].
-    destruct (store_logs_shape s sh b' s' Hs Es) as (sh' & Esh & Hs').
+    destruct (store_logs_aligned s sh b' s' Hs Es) as (sh' & Esh & Hs').
     exists sh'. split; [exact Esh|]. split; [exact Hs'|].
     pose proof (uvs_loop_map _ _ _ _ _ _ _ El) as Hm.
     assert (Hb' : b' <> []).
